@@ -259,14 +259,28 @@ import numpy as np
 from vf.rt.harness import oracle, Bounded, replay_file, close
 
 
-def _mk_rdms(n_rdm, n_cond, rgroups, pgroups):
-    """RDMs with sentinel values: entry (r, a<b) = 1000*(r+1) + 30*a + b ; ids in descriptors"""
+def _mk_rdms(n_rdm, n_cond, rgroups, pgroups, container='list'):
+    """RDMs with sentinel values: entry (r, a<b) = 1000*(r+1) + 30*a + b ; ids in descriptors (lists or numpy arrays)"""
     from rsatoolbox.rdm import RDMs
     vec = []
     for r in range(n_rdm):
         vec.append([1000.0 * (r + 1) + 30 * a + b for a in range(n_cond) for b in range(a + 1, n_cond)])
-    return RDMs(np.array(vec), rdm_descriptors={'rid': list(range(n_rdm)), 'rg': list(rgroups)},
-                pattern_descriptors={'cid': list(range(n_cond)), 'pg': list(pgroups)})
+    c = np.array if container == 'array' else list
+    return RDMs(np.array(vec), rdm_descriptors={'rid': c(range(n_rdm)), 'rg': c(rgroups)},
+                pattern_descriptors={'cid': c(range(n_cond)), 'pg': c(pgroups)})
+
+
+def _source_intact(rdms, n_rdm, n_cond, rg, pg):
+    """the generator must hand out selections of the source, not re-label the source itself"""
+    want = _mk_rdms(n_rdm, n_cond, rg, pg)
+    for nm, a, b in (('rdm', rdms.rdm_descriptors, want.rdm_descriptors),
+                     ('pattern', rdms.pattern_descriptors, want.pattern_descriptors)):
+        for k in b:
+            if list(a[k]) != list(b[k]):
+                return f'the {nm} descriptor {k!r} of the SOURCE object was changed by the generator: {list(a[k])} (was {list(b[k])})'
+    if not np.array_equal(rdms.dissimilarities, want.dissimilarities):
+        return 'the dissimilarities of the source object were changed by the generator'
+    return None
 
 
 def _content_ok(obj, where):
@@ -305,7 +319,7 @@ def orc_folds(case):
     import rsatoolbox.inference.crossvalsets as cvs
     n_rdm, n_cond = case['n_rdm'], case['n_cond']
     rg, pg = case['rg'], case['pg']
-    rdms = _mk_rdms(n_rdm, n_cond, rg, pg)
+    rdms = _mk_rdms(n_rdm, n_cond, rg, pg, case.get('container', 'list'))
     gen = case['gen']
     np.random.seed(case.get('seed', 0))
     all_rg, all_pg = set(rg), set(pg)
@@ -340,6 +354,9 @@ def orc_folds(case):
         raise ValueError(gen)
     if len(tr) != len(te):
         return f'{len(tr)} training sets but {len(te)} test sets'
+    msg = _source_intact(rdms, n_rdm, n_cond, rg, pg)
+    if msg:
+        return msg
     n_fold = len(te)
     # is each factor actually cross-validated (more than one fold requested along it)?
     cv_r = 'r' in factors
@@ -432,7 +449,7 @@ def _groupings(n):
 def tier_c_folds(run, thorough):
     bd = Bounded(run, 'C05/folds', 'C05/fold-generators/oracle/partition-and-contents',
                  'all generators; n_rdm 2..%d, n_cond 3..%d; identity / repeated-value groupings; every admissible k; '
-                 'ordered and %d shuffle seeds' % ((6, 8, 6) if thorough else (4, 6, 2)), exhaustive=False,
+                 'ordered and %d shuffle seeds; list descriptors, and numpy-array descriptors for half of the shapes' % ((6, 8, 6) if thorough else (4, 6, 2)), exhaustive=False,
                  function='sets_*')
     R = range(2, 7 if thorough else 5)
     Cn = range(3, 9 if thorough else 7)
@@ -440,6 +457,9 @@ def tier_c_folds(run, thorough):
 
     def chk(case, gen):
         bd.check(orc_folds, dict(case, gen=gen), gen, function='sets_' + gen)
+        if case.get('seed', 0) <= 1 and (case['n_rdm'] + case['n_cond']) % 2 == 0:
+            # the same with numpy-array descriptors (shared by reference between source and selections)
+            bd.check(orc_folds, dict(case, gen=gen, container='array'), gen + ',array-descriptors', function='sets_' + gen)
     for n_rdm in R:
         for n_cond in Cn:
             for rg in _groupings(n_rdm):
